@@ -53,7 +53,7 @@ theorem subs_eval (K : List Obj) (env : Obj → Option Obj) (key val : Obj) (hk 
       have := (beq_eq_true_iff _ _).mp he
       have hkt := (inKeys_props hk).1
       rw [← this] at hkt; simp [Obj.keyTyped] at hkt
-    simp only [subs, hne, Bool.false_eq_true, if_false]
+    simp only [subs, hne, Bool.false_eq_true, if_false, evalObj, subsVals_eval K env key val hk hv kvs]
   | .int n => by
     by_cases he : (Obj.int n == key) = true
     · have := (beq_eq_true_iff _ _).mp he
@@ -101,6 +101,11 @@ theorem subsList_eval (K : List Obj) (env : Obj → Option Obj) (key val : Obj) 
   | [] => by simp [subsList]
   | x :: xs => by
     simp only [subsList, evalObjs, subs_eval K env key val hk hv x, subsList_eval K env key val hk hv xs]
+theorem subsVals_eval (K : List Obj) (env : Obj → Option Obj) (key val : Obj) (hk : inKeys K key = true)
+    (hv : env key = evalObj K env val) : ∀ kvs, evalVals K env (subsVals key val kvs) = evalVals K env kvs
+  | [] => by simp [subsVals]
+  | (k, v) :: rest => by
+    simp only [subsVals, evalVals, subs_eval K env key val hk hv v, subsVals_eval K env key val hk hv rest]
 theorem subsArgs_eval (K : List Obj) (env : Obj → Option Obj) (key val : Obj) (hk : inKeys K key = true)
     (hv : env key = evalObj K env val) : ∀ xs, evalObjs K env (subsArgs key val xs) = evalObjs K env xs
   | [] => by simp [subsArgs]
@@ -171,8 +176,7 @@ theorem subsArgs_eval (K : List Obj) (env : Obj → Option Obj) (key val : Obj) 
         rw [← h2] at hkt; simp [Obj.keyTyped] at hkt
       simp only [subsArgs, evalObjs, ih, hne, Bool.false_eq_true, if_false]
     | dict kvs =>
-      have hne : ((Obj.dict kvs).hashable && Obj.dict kvs == key) = false := by simp [Obj.hashable]
-      simp only [subsArgs, evalObjs, ih, hne, Bool.false_eq_true, if_false]
+      simp only [subsArgs, evalObjs, ih, evalObj, subsVals_eval K env key val hk hv kvs]
     | app f a k =>
       have hne : ((Obj.app f a k).hashable && Obj.app f a k == key) = false := by
         rw [Bool.eq_false_iff]; intro he
